@@ -265,6 +265,14 @@ def norm_bound(v, n, default):
             v += n
         return min(max(v, 0), n)
     v, n = V.zint(v), V.zint(n)
+    O = V.ORACLE
+    if O is not None:
+        if O(z3.And(v >= 0, v <= n)):
+            return V.simp(v)
+        if O(z3.And(v < 0, v + n >= 0)):
+            return V.simp(v + n)
+        if O(v >= n):
+            return V.simp(n)
     vv = z3.If(v < 0, v + n, v)
     return V.simp(z3.If(vv < 0, 0, z3.If(vv > n, n, vv)))
 
@@ -284,7 +292,12 @@ def slice_params(sl, n):
         hi = norm_bound(sl.stop, n, n)
         span = V.sub(hi, lo)
         if is_sym(span):
-            length = V.simp(z3.If(span > 0, (span + (step - 1)) / step, z3.IntVal(0)))
+            span = V.simp(span)
+        if is_sym(span):
+            if V.ORACLE is not None and step == 1 and V.ORACLE(span >= 0):
+                length = span
+            else:
+                length = V.simp(z3.If(span > 0, (span + (step - 1)) / step, z3.IntVal(0)))
         else:
             length = max(0, (span + step - 1) // step)
         return lo, step, length
@@ -541,7 +554,23 @@ def arr_getitem(ctx, a, idx):
             return CArr(out) if out.ndim else out[()]
         return arr_getitem(ctx, to_larr(a), idx)
     # LArr
-    if isinstance(idx, (LArr, CArr)) and idx.kind == 'bool' or (isinstance(idx, tuple) and any(is_arr(i) and i.kind == 'bool' for i in idx)):
+    if isinstance(idx, (LArr, CArr)) and idx.kind == 'bool':
+        # contract of a[mask]: an array of some length 0 <= m <= size whose entries are entries of a (ghost injection `src`)
+        if a.ndim != 1:
+            raise Unsupported('boolean mask selection on a symbolic nd array')
+        m = ctx.fresh('nsel', 'int')
+        src = ctx.fresh_fun('selsrc', z3.IntSort(), z3.IntSort())
+        mask = snapshot(to_larr(idx))
+        snap = snapshot(a)
+        ctx.assume(z3.And(m >= 0, m <= V.zint(a.shape[0])))
+        q = z3.Int(f'q!{next(ctx.fresh_ctr)}')
+        q2 = z3.Int(f'q!{next(ctx.fresh_ctr)}')
+        ctx.hyps.append(z3.ForAll([q], z3.Implies(z3.And(q >= 0, q < m), z3.And(src(q) >= 0, src(q) < V.zint(a.shape[0]), V.zbool(mask.at(src(q)))))))
+        ctx.hyps.append(z3.ForAll([q, q2], z3.Implies(z3.And(q >= 0, q < q2, q2 < m), src(q) < src(q2))))
+        r = LArr((m,), lambda o, snap=snap, src=src: snap.at(src(V.zint(o[0]))), a.kind)
+        r.meta['mask_select'] = (mask, src, snap)
+        return r
+    if isinstance(idx, tuple) and any(is_arr(i) and i.kind == 'bool' for i in idx):
         raise Unsupported('boolean mask selection on a symbolic-shape array (needs a contract)')
     plan = plan_index(ctx, a.shape, idx)
     if not plan.out_shape:
@@ -550,6 +579,13 @@ def arr_getitem(ctx, a, idx):
     if plan.is_view:
         r.view_of = (a, plan.fwd)
         r.elem = lambda o, a=a, f=plan.fwd: a.at(*f(o))
+        if a.inv is not None and a.ndim == 1 and len(plan.out_shape) == 1:
+            # a basic slice of an injective index array stays injective: ghost inverse shifted by the slice start
+            sl = idx[0] if isinstance(idx, tuple) else idx
+            if isinstance(sl, slice):
+                start, step, _ = slice_params(sl, a.shape[0])
+                if step == 1:
+                    r.inv = lambda v, inv=a.inv, start=start: V.sub(inv(v), start)
     else:
         snap = snapshot(a)
         r.elem = lambda o, snap=snap, f=plan.fwd: snap.at(*f(o))
